@@ -1,5 +1,6 @@
 import QVerif.Lemmas.RunnerLive
 import QVerif.Lemmas.RunnerRetry
+import QVerif.Lemmas.RunnerFair
 
 /-!
 # C08 — batching wrapper: every call completes under every schedule
@@ -47,5 +48,70 @@ retrying ones wait for — DESIGN.md, C08). -/
 theorem C08_bounded_work {s s' : St} (h : Run s s') : ∃ k, Path s s' k ∧ k + weight s' ≤ weight s := by
   obtain ⟨k, hk⟩ := path_of_run h
   exact ⟨k, hk, path_bound hk⟩
+
+/-- a maximal execution: every position takes a step, or is stuck (no step possible) and stutters -/
+def MaximalExec (σ : Nat → St) : Prop :=
+  ∀ i, Step (σ i) (σ (i + 1)) ∨ ((∀ s', ¬ Step (σ i) s') ∧ σ (i + 1) = σ i)
+
+/-- **Every call returns under every strongly fair schedule.**  Take any maximal execution of the runner from a reachable
+state — any number of threads and calls, any interleaving, timed waits firing early or late, any pattern of failing
+batches — that is strongly fair (a thread whose next synchronisation operation is enabled infinitely often performs it
+infinitely often; `f` returning is one of these operations).  Then the execution reaches a quiescent state: every call has
+returned or raised, both locks are free, and the wrapper accepts new batches.  No infinite fair execution exists
+(`no_infinite_fair_execution`), and a stuck state is quiescent (`progress`). -/
+theorem C08_every_fair_execution_completes (th0 : List TS) (h0 : ∀ x ∈ th0, x.loc = .idle) (σ : Nat → St)
+    (hr : Reachable th0 (σ 0)) (hmax : MaximalExec σ) (hf : StrongFair σ) : ∃ i, Quiescent (σ i) := by
+  have hreach : ∀ i, Reachable th0 (σ i) := by
+    intro i
+    induction i with
+    | zero => exact hr
+    | succ i ih =>
+      rcases hmax i with h | h
+      · obtain ⟨a, ha⟩ := step_complete _ _ h
+        exact .next a ih ha
+      · rw [h.2]; exact ih
+  by_cases hstuck : ∃ i, ∀ s', ¬ Step (σ i) s'
+  · obtain ⟨i, hi⟩ := hstuck
+    refine ⟨i, ?_⟩
+    apply Classical.byContradiction
+    intro hnq
+    obtain ⟨hc, hd⟩ := dinv_reachable th0 h0 (hreach i)
+    obtain ⟨s1, hs, _⟩ := progress hc hd hnq
+    exact hi s1 hs
+  · exfalso
+    have hex : IsExec σ := by
+      intro i
+      rcases hmax i with h | h
+      · exact h
+      · exact absurd ⟨i, h.1⟩ hstuck
+    exact no_infinite_fair_execution th0 h0 σ hr hex hf
+
+/-! ### the hypotheses are satisfiable: executions that finish are fair -/
+
+/-- a maximal execution that gets stuck somewhere (then stutters) is strongly fair: nothing is enabled from there on -/
+theorem fair_of_stuck (σ : Nat → St) (hmax : MaximalExec σ) (i : Nat) (hi : ∀ s', ¬ Step (σ i) s') : StrongFair σ := by
+  have hconst : ∀ k, σ (i + k) = σ i := by
+    intro k
+    induction k with
+    | zero => rfl
+    | succ k ih =>
+      rcases hmax (i + k) with h | h
+      · rw [ih] at h; exact absurd h (hi _)
+      · rw [show i + (k + 1) = i + k + 1 from rfl, h.2, ih]
+  intro t hinf
+  obtain ⟨j, hj, s', hs, _⟩ := hinf i
+  have := hconst (j - i)
+  rw [show i + (j - i) = j by omega] at this
+  rw [this] at hs
+  exact absurd hs (hi s')
+
+-- one caller, one call with two pubs: the complete run (20 steps) followed by stuttering is a maximal, strongly fair execution
+def ex8Start : St := { th := [{ todo := [[1, 2]] }] }
+def ex8Acts : List Act :=
+  [.step 0, .step 0, .step 0, .step 0, .step 0, .step 0, .step 0, .step 0, .step 0, .fret 0 false] ++ List.replicate 10 (.step 0)
+
+example : (match runActs ex8Start ex8Acts with
+    | some s => decide ((s.get 0).loc = .idle ∧ (s.get 0).outs = [(.ok [1, 2], 0)] ∧ s.E = none ∧ s.V = none)
+    | none => false) = true := by decide +kernel
 
 end Runner
